@@ -10,6 +10,7 @@ import pathlib
 
 import pyrtma.parser as P
 from engine.standins import NullLogger
+from engine import realinit
 from harness.common import sh, set_shard, verdict, reached  # noqa: F401
 
 POOL = ["Alpha", "Beta", "Gamma"]
@@ -18,19 +19,9 @@ MSGID = ("msg", "signal", "reserved")
 
 
 def new_parser():
-    p = object.__new__(P.Parser)
-    p.included_files = []
+    p = realinit.parser(P, validate_alignment=True, auto_pad=True, import_coredefs=True)
     p.current_file = pathlib.Path("/defs/user.yaml") if not sh("core", 0) else pathlib.Path("/defs/core_defs.yaml")
     p.root_path = pathlib.Path("/defs")
-    p.debug = False
-    p.validate_alignment = True
-    p.auto_pad = True
-    p.import_coredefs = True
-    p.yaml_dict = {}
-    p.metadata, p.compiler_options, p.imports = {}, {}, []
-    p.constants, p.string_constants, p.aliases, p.host_ids, p.module_ids = {}, {}, {}, {}, {}
-    p.struct_defs, p.message_ids, p.message_defs = {}, {}, {}
-    p.logger = NullLogger()
     return p
 
 
